@@ -8,6 +8,29 @@ feats (set of str): tree, chan, prio, stop, values, flags, cancel, genfire, gen,
 """
 
 PRIOS = [-2, -1, -0.5, 0, 0, 0, 0.5, 1, 2]
+# handler results; 0 is the falsy-but-not-None result (Value.setValue must treat it like any other)
+VALS = [0, 0, 0, 1, 2, 3, 4, 5, 6, 7, 8, 9]
+
+
+def fix_catch(acts):
+    """a handler that catches TimeoutError and reaches its next call()/wait() in the same step (possibly after
+    non-yielding acts such as fire) is outside the modelled programs: a plain yield is put in between"""
+    out = []
+    pending = False
+    for a in acts:
+        if a[0] in ('call', 'wait'):
+            if pending:
+                out.append(['yld', None])
+            pending = a[3] is not None and bool(a[4])
+        elif a[0] == 'yld':
+            pending = False
+        out.append(a)
+    return out
+
+
+def in_scope(sc):
+    """True iff every program of the scenario is one of the modelled programs (see fix_catch)"""
+    return all(fix_catch(p) == p for p in sc['progs'])
 
 
 class Gen:
@@ -67,7 +90,7 @@ class Gen:
         acts = []
         if inert:
             if 'values' in f and r.random() < 0.5:
-                acts.append(['ret', r.randint(1, 9)])
+                acts.append(['ret', r.choice(VALS)])
             self.progs.append(acts)
             return len(self.progs) - 1
         make_gen = ('gen' in f or 'call' in f) and r.random() < 0.45
@@ -83,7 +106,7 @@ class Gen:
             elif x < 0.62 and 'flushact' in f:
                 acts.append(['flush'])
             elif x < 0.72 and make_gen:
-                acts.append(['yld', r.choice([None, r.randint(1, 9)]) if 'values' in f else None])
+                acts.append(['yld', r.choice([None, r.choice(VALS)]) if 'values' in f else None])
             elif x < 0.9 and make_gen and 'call' in f:
                 hi = [m for m in range(1, self.nnames + 1) if m > level]
                 if hi:
@@ -102,28 +125,22 @@ class Gen:
                     acts.append(['unreg', c])
         # a handler that catches TimeoutError and immediately calls/waits again is outside the modelled
         # programs (processTask wraps the new generator in a one-shot generator; see DESIGN C06)
-        fixed = []
-        for a in acts:
-            if fixed and fixed[-1][0] in ('call', 'wait') and fixed[-1][3] is not None and fixed[-1][4] \
-                    and a[0] in ('call', 'wait'):
-                fixed.append(['yld', None])
-            fixed.append(a)
-        acts = fixed
+        acts = fix_catch(acts)
         # how the body ends
         if make_gen and not any(a[0] in ('yld', 'call', 'wait') for a in acts):
-            acts.insert(r.randint(0, len(acts)), ['yld', r.choice([None, r.randint(1, 9)]) if 'values' in f else None])
+            acts.insert(r.randint(0, len(acts)), ['yld', r.choice([None, r.choice(VALS)]) if 'values' in f else None])
         if 'values' in f:
             x = r.random()
             if make_gen:
                 if x < 0.2:
                     acts.insert(r.randint(0, len(acts)), ['raise', 1] if r.random() < 0.3 else ['raise'])
                 elif x < 0.5:
-                    acts.append(['yld', r.randint(1, 9)])
+                    acts.append(['yld', r.choice(VALS)])
             else:
                 if x < 0.2:
                     acts.insert(r.randint(0, len(acts)), ['raise', 1] if r.random() < 0.3 else ['raise'])
                 elif x < 0.6:
-                    acts.append(['ret', r.randint(1, 9)])
+                    acts.append(['ret', r.choice(VALS)])
         self.progs.append(acts)
         return len(self.progs) - 1
 
@@ -214,11 +231,12 @@ def gen_run_scenario(rng, feats, cycles=None):
         g.comps.append({'chan': chan, 'handlers': hs, 'timer': None})
     codes = [None, None, 0, 3]
     # the stop placement
-    place = r.choice(['started', 'chain', 'genstep', 'stopped-fires', 'timer-only'])
-    code = r.choice(codes)
-    how = r.choice(['stopMgr', 'stopMgr', 'sysExit', 'kbdInt'])
+    place = r.choice(['started', 'chain', 'genstep', 'stopped-fires', 'stopped-stops', 'timer-only'])
 
     def stop_act():
+        # every stop site draws its own way of stopping and its own exit code: only the first effective one counts
+        how = r.choice(['stopMgr', 'stopMgr', 'sysExit', 'kbdInt'])
+        code = r.choice(codes + [5, 7])
         if how == 'stopMgr':
             return ['stopMgr', 0, code]
         if how == 'sysExit':
@@ -270,6 +288,12 @@ def gen_run_scenario(rng, feats, cycles=None):
             v['prog'] = len(g.progs) - 1
     if place == 'stopped-fires':
         p = [a for a in (g.fire_act(0), g.fire_act(0)) if a]
+        g.progs.append(p)
+        g.comps[0]['handlers'].append({'names': ['904'], 'chan': None, 'prio': 0, 'prog': len(g.progs) - 1,
+                                       'installed': True})
+    if place == 'stopped-stops':
+        # stop() / SystemExit again while the manager is already stopping (from the `stopped` handler), other code
+        p = [stop_act()] + [a for a in (g.fire_act(0),) if a]
         g.progs.append(p)
         g.comps[0]['handlers'].append({'names': ['904'], 'chan': None, 'prio': 0, 'prog': len(g.progs) - 1,
                                        'installed': True})
@@ -427,4 +451,43 @@ def gen_cache_pattern(rng):
             ops.append(['do', 0, ['addH', h]])
             inst.append(h)
         round_()
+    return {'tmpls': tmpls, 'progs': progs, 'comps': comps, 'ops': ops}
+
+
+def gen_multichan_pattern(rng):
+    """handler priority order and stop() for an event that is delivered on SEVERAL channels at once: an event with
+    success=True and success_channels=(c1, c2[, c3]) makes the dispatcher collect handlers per channel and sort the
+    union; handlers for <name>_success sit on the different channels with interleaved priorities, some stop the event"""
+    r = rng
+    chans = r.sample(['n1', 'n2', 'n3', '*'], r.randint(2, 3))
+    nn = r.randint(1, 2)
+    tmpls = [{'name': str(n + 1), 'flags': 's', 'sc': list(chans), 'cc': None} for n in range(nn)]
+    progs = [[], [['ret', 3]], [['stopEv']], [['stopEv'], ['ret', 5]]]
+    ncomp = r.randint(1, 3)
+    comps = []
+    grid = [-2, -1, -0.5, 0, 0.5, 1, 2]
+    for ci in range(ncomp):
+        hs = []
+        for _ in range(r.randint(2, 5)):
+            n = r.randrange(nn) + 1
+            k = r.random()
+            if k < 0.85:
+                names = [f'{n}:2']
+            elif k < 0.93:
+                names = [str(n)]
+            else:
+                names = []
+            prog = r.choice([0, 1, 1, 1, 1, 1, 1, 2, 3]) if names != [str(n)] else r.choice([0, 1])
+            hs.append({'names': names, 'chan': r.choice(chans + chans + [None]), 'prio': r.choice(grid), 'prog': prog,
+                       'installed': True})
+        comps.append({'chan': r.choice(chans), 'handlers': hs, 'timer': None})
+    ops = []
+    for c in range(1, ncomp):
+        ops.append(['do', c, ['reg', c, r.randrange(c)]])
+    ops.append(['quiesce', 0])
+    for _ in range(r.randint(1, 3)):
+        ops.append(['do', r.randrange(ncomp), ['fire', r.randrange(nn), r.choice([None] + chans), r.choice([0, 0, 1, -1]), False]])
+        if r.random() < 0.6:
+            ops.append(['quiesce', 0])
+    ops.append(['quiesce', 0])
     return {'tmpls': tmpls, 'progs': progs, 'comps': comps, 'ops': ops}
